@@ -61,6 +61,12 @@ KINDS = ["f", "f", "i", "b", "s", "s", "o", "M", "c", "I", "B", "f4", "fn", "sn"
 REFUSALS = ("ColumnUnitException", "InvalidNamingError", "ValueError")
 
 
+def fresh(u):
+    """an equal but distinct string object (built at run time, as units read from files are): literals and
+    one-character strings are shared objects in CPython, which hides identity comparisons"""
+    return u if u is None else "".join(list(u))
+
+
 class Abort(Exception):
     """history left the modelled domain (non-string labels, metadata lost)"""
 
@@ -356,6 +362,10 @@ def init_table(ctx, plan=None):
         units = goods + ["kg"]
     elif mode == "map":
         unit_map = {n: u for n, u in zip(names, goods) if rng.random() < 0.7}
+    if units is not None:
+        units = [fresh(u) for u in units]
+    if unit_map is not None:
+        unit_map = {k: fresh(v) for k, v in unit_map.items()}
     desc = {"names": names, "kinds": kinds, "nrow": nrow, "mode": mode, "strict": strict, "units": units,
             "unit_map": unit_map}
     frame = ctx.obs.frame(df)
@@ -409,7 +419,7 @@ def op_add_column(ctx, setitem=False):
     unit, kw = None, {}
     if not setitem:
         r = rng.random()
-        unit = None if r < 0.3 else (good_unit(rng, vals) if r < 0.75 else rng.choice(PHYS + SPECIAL))
+        unit = fresh(None if r < 0.3 else (good_unit(rng, vals) if r < 0.75 else rng.choice(PHYS + SPECIAL)))
         if rng.random() < 0.25:
             kw["display_format"] = ColumnFormat(rng.choice([1, 2, "8.3e"]))
         if rng.random() < 0.15:
@@ -896,7 +906,7 @@ def other_table(ctx, share=True):
             vals = make_values(rng, rng.choice(["f", "i", "b", "s", "M"]), nrow)
             u = good_unit(rng, vals)
         cols[c] = vals
-        units.append(u)
+        units.append(fresh(u))
     df = pd.DataFrame(cols)
     try:
         return quiet(Table, df, name="other", units=units, strict_types=rng.random() < 0.85), names
@@ -937,6 +947,19 @@ def derived(ctx, fn, desc, keeps_units=True):
             ctx.send("finalize", {"exc": rec["exc"]}, frame=rec["frame"], srcs=rec["srcs"],
                      strict=rec.get("strict", True))
             out.count("finalize_refused:" + rec["exc"])
+            if rec["exc"] == "InvalidTableCombineError" and ctx.prop == "C04":
+                # judged from the source registers as observed: a column shared by several inputs with the SAME
+                # unit in all of them is no clash; the combined table must exist and report that unit
+                out_names = [c[0] for c in rec["frame"]["cols"]]
+                clash = False
+                for n in out_names:
+                    us = {e[1] for src in rec["srcs"] for e in src if e[0] == n}
+                    if len(us) > 1:
+                        clash = True
+                if not clash:
+                    _fail(ctx, "combining tables whose shared columns carry equal units was refused as a unit clash",
+                          {"exc": rec["exc"], "sources": [[e[:2] for e in src] for src in rec["srcs"]]},
+                          "a table reporting the shared units", "C04:combine-refused-equal-units")
             return desc + " -> " + rec["exc"]
         out.count("pandas_error:" + type(err).__name__)
         return desc + " -> pandas " + type(err).__name__
